@@ -714,10 +714,15 @@ func (e *Exec) run(harness func(*H)) {
 			skipped := 0
 			for i, tr := range trs {
 				if e.flatMode {
-					// deviation bounding: the first option is the default schedule, every other choice
-					// (whatever its position) is one deviation; environment tasks are free
-					if !tr.t.Free && i > 0 {
-						p.Costs[i] = 1
+					// deviation bounding: the first option of a non-environment task is the default schedule,
+					// every other one (whatever its position) is one deviation; options of environment
+					// tasks are free wherever they stand (an environment task with a low id must not
+					// turn "let the system run on" into a deviation at every step)
+					if !tr.t.Free {
+						if skipped > 0 {
+							p.Costs[i] = 1
+						}
+						skipped++
 					}
 				} else if e.delayMode {
 					// delay bounding: the default scheduler takes the first option of the canonical
